@@ -381,7 +381,10 @@ def l3_argument_effects(chk, ctx, rng, tier):
         return S(rng.poisson(np.maximum(np.ma.filled(fs, 0.0), 1e-3)).astype(float))
     for rep in range(reps):
         for multinom in (False, True):
-            for flavour in ('generic', 'integral', 'boundary', 'tiny'):
+            flavours = ['generic', 'integral', 'boundary', 'tiny']
+            if tier == 'quick' and multinom:      # with multinom=True the parameter vector is rebuilt as a list first: fewer flavours in the quick tier
+                flavours = ['generic', flavours[1 + int(rng.integers(3))]]
+            for flavour in flavours:
                 n = int(rng.integers(6, 11)); ns = (n,)
                 pts = sorted(int(x) for x in rng.choice(np.arange(8, 20), 3, replace=False))
                 if flavour == 'integral':
